@@ -6,7 +6,7 @@ P=$1; ID=$2; TIER=${3:-quick}
 cd /repo || exit 2
 if [ -n "$(git status --porcelain --untracked-files=no)" ]; then echo "repo not clean"; exit 2; fi
 git apply $REV "$P" || { echo "patch does not apply"; exit 2; }
-cd /verif && ./check $ID --tier $TIER > /tmp/try_patch.out 2>&1; RC=$?
+cd /verif && VERIF_EVIDENCE_DIR=/tmp/try_patch_evidence ./check $ID --tier $TIER > /tmp/try_patch.out 2>&1; RC=$?
 git -C /repo checkout -- .
 echo "exit=$RC"; grep -c '^VIOLATION' /tmp/try_patch.out | sed 's/^/violations=/'; grep -m4 -A1 '^VIOLATION\|^MACHINERY' /tmp/try_patch.out
 exit 0
